@@ -264,13 +264,15 @@ def compute_map(rev, cur):
         for f in cl:
             old_name = fmap.get(f["name"], f["name"])
             cands = [r for r in rl if r["name"] == old_name and r["np"] == f["np"]]
-            if len(cands) > 1:
-                cands = [r for r in cands if r["digest"] == f["digest"]] or cands
+            twins = [g for g in cl if g["name"] == f["name"] and g["np"] == f["np"]]
+            if len(cands) > 1 or len(twins) > 1:
+                # overload sets (SFINAE pairs, const / non-const): only the overload with the very same body
+                cands = [r for r in cands if r["digest"] == f["digest"]]
             if len(cands) != 1:
                 continue
             r = cands[0]
             key = "%s/%d/%s" % (f["name"], f["np"], f["digest"])
-            if r["params"] != f["params"] and all(r["params"]):
+            if r["params"] != f["params"] and all(r["params"]) and all(f["params"]):
                 m["params"].setdefault(cls, {})[key] = r["params"]
             if r["locals"] != f["locals"] and [x[1] for x in r["locals"]] == [x[1] for x in f["locals"]] and r["digest"] == f["digest"]:
                 m["locals"].setdefault(cls, {})[key] = [x[0] for x in r["locals"]]
@@ -357,7 +359,7 @@ def apply(data, m):
         pn = m["params"].get(cls, {}).get(key) if key else None
         if pn and len(pn) == len(f.get("params") or []):
             for p_, o in zip(f["params"], pn):
-                if "d" in p_ and p_.get("n") != o:
+                if "d" in p_ and p_.get("n") and p_.get("n") != o:
                     ren_d[p_["d"]] = o
                     p_["n"] = o
         ln = m["locals"].get(cls, {}).get(key) if key else None
